@@ -108,7 +108,7 @@ def run_date(job, res):
             now = Z.epoch_at(zone, date, h, mi, s)
             if Z.local_date(zone, now) != date:
                 continue
-            clk.move_to(float(now) + 0.25)
+            clk.move_to(float(now) + (0.75 if (h, mi, s) == (12, 0, 0) else 0.25))  # the fraction of the current second never matters
             import time as _t
             from mc.core import HarnessError
             if _t.strftime("%Y-%m-%d %H:%M") != f"{date.isoformat()} {h:02d}:{mi:02d}" and Z.local_to_epochs(zone, date, h, mi, s):
